@@ -92,6 +92,16 @@ META["C18"] = dict(cat="model_checking", design="6 C18",
                    note="Truncating variant judged below 2^(emax+1) only (the callers' domain; above it the code saturates to infinity). " + _TB,
                    tech="TLC model checking of Rounding.tla + trace validation of round() records against the oracle")
 
+META["C13"] = dict(cat="model_checking", design="6 C13",
+                   text="MC_Vec explores the vector specification exhaustively (2-bit limbs, capacity 3, every operation and "
+                        "argument, each transition asserted against the bounded-sequence contract and the numeric meaning of the "
+                        "small arithmetic / ordering / hi64); TLC-simulated histories (LBITS 64, CAP 62) are replayed into the real "
+                        "StackVec and HeapVec step by step, and histories recorded from the real code are validated by the "
+                        "CF_Vec trace specification.",
+                   note="Safe API only; ordering and hi64 judged on normalised operands. Histories are sampled, not enumerated, at "
+                        "the real capacity. " + _TB,
+                   tech="TLC exhaustive model checking of Vec.tla + TLC-generated history replay + trace validation (CF_Vec)")
+
 PENDING = "check not built yet in this revision of /verif (planned; see DESIGN.md section 6)"
 
 
